@@ -19,7 +19,7 @@ from .. import twin
 PROP = 'C03'
 LEVEL = 'exploration'
 BATCH = 150
-RUN_TIMEOUT = 3      # wall-clock watchdog: a request that is never answered (e.g. an endless cast loop)
+RUN_TIMEOUT = 3      # CPU-time watchdog: a request that is never answered (e.g. an endless cast loop)
 TIERS = {
     'quick': {'runs': 900000, 'budget': 35},
     'thorough': {'runs': 8_000_000, 'budget': 480},
